@@ -220,7 +220,31 @@ func (x *exec) tour(c *udpsvc.Client, t *tourStops, fill int) {
 	}
 }
 
-func (x *exec) runOps(c *udpsvc.Client, ops []planOp) {
+// garbageFirst makes the first datagram of the client's current socket one the server cannot accept.
+func (x *exec) garbageFirst(c *udpsvc.Client, kind int) {
+	var b []byte
+	if udpsvc.IsSS2022(x.p.ServerProto) {
+		// this session's own packet (its client session id is in the clear part), body damaged
+		tag := udpsvc.Tag{Kind: udpsvc.KindRequest, Scenario: x.w.Scenario, Session: 0xFFF0, Seq: 1, Responder: udpsvc.NoResponder, Fill: 16}
+		pkt, err := c.Codec.Pack(x.w.DestAddr(0), udpsvc.EncodePayload(nil, tag))
+		if err != nil {
+			return
+		}
+		pkt[len(pkt)-3] ^= 0x40
+		b = pkt
+	} else {
+		gk := garbageKinds(x.p.ServerProto)
+		if len(gk) == 0 {
+			return
+		}
+		b = gk[(kind-1)%len(gk)].make(x, kind)
+	}
+	c.SendRaw(b)
+	x.label("garbage-first-then-valid-same-socket")
+	x.label("garbage-first:" + x.p.BatchMode)
+}
+
+func (x *exec) runOps(c *udpsvc.Client, ops []planOp, gf int) {
 	for _, o := range ops {
 		if x.abort.Load() {
 			return
@@ -231,6 +255,9 @@ func (x *exec) runOps(c *udpsvc.Client, ops []planOp) {
 		case "rebind":
 			c.Rebind()
 			x.label("rebind")
+			if gf > 0 {
+				x.garbageFirst(c, gf)
+			}
 		case "paced":
 			for i := 0; i < o.N && !x.abort.Load(); i++ {
 				d := o.Dest
@@ -395,12 +422,19 @@ func runPlan(p *plan, workDir string) (out outcome) {
 		defer r.Close()
 	}
 
-	phase := func(get func(planSession) []planOp, garbage []int) {
+	phase := func(get func(planSession) []planOp, garbage []int, first bool) {
 		var wg sync.WaitGroup
 		start := make(chan struct{})
 		for i, c := range x.clients {
 			ops := get(p.Sessions[i])
-			wg.Go(func() { <-start; x.runOps(c, ops) })
+			gf := p.Sessions[i].GarbageFirst
+			wg.Go(func() {
+				<-start
+				if first && gf > 0 {
+					x.garbageFirst(c, gf)
+				}
+				x.runOps(c, ops, gf)
+			})
 		}
 		if len(garbage) > 0 {
 			wg.Go(func() { <-start; x.sendGarbage(garbage, true) })
@@ -410,7 +444,7 @@ func runPlan(p *plan, workDir string) (out outcome) {
 	}
 
 	// phase A: all sessions concurrently
-	phase(func(s planSession) []planOp { return s.A }, nil)
+	phase(func(s planSession) []planOp { return s.A }, nil, true)
 
 	// fenced garbage check: with every session established and idle, garbage must not change the
 	// number of relay goroutines or sockets. The fence is an echo on every live session: the
@@ -455,7 +489,7 @@ func runPlan(p *plan, workDir string) (out outcome) {
 	}
 
 	// phase B: sessions concurrently, garbage interleaved
-	phase(func(s planSession) []planOp { return s.B }, p.GarbageB)
+	phase(func(s planSession) []planOp { return s.B }, p.GarbageB, false)
 	fence("final")
 	time.Sleep(30 * time.Millisecond) // let late echoes of bursts arrive before judging
 
